@@ -502,7 +502,7 @@ class SubprocSpec:
         self.captured = captured
         if env is not None:
             self.env = {
-                k: v if not (isinstance(v, list)) or len(v) > 1 else v[0]
+                k: v if not (isinstance(v, list)) or len(v) != 1 else v[0]
                 for (k, v) in env.items()
             }
         else:
